@@ -1,0 +1,59 @@
+//go:build verif
+// +build verif
+
+// Machine-checked contracts for this package (checked by /verif/govc).
+// Comment-only: no executable code.
+
+package handler
+
+//@ import types "github.com/ovrclk/akash/x/provider/types"
+//@ import keeper "github.com/ovrclk/akash/x/provider/keeper"
+//@ import mkeeper "github.com/ovrclk/akash/x/market/keeper"
+//@ import mtypes "github.com/ovrclk/akash/x/market/types"
+//@ import sdk "github.com/cosmos/cosmos-sdk/types"
+
+// A-WIRING: in the application the handler's keeper interfaces are these implementations (app/app.go)
+//@ bind keeper.IKeeper => keeper.Keeper
+//@ bind mkeeper.IKeeper => mkeeper.Keeper
+
+//@ spec pmsk(ms: msgServer): iface = unbox(ms.market, mkeeper.Keeper).skey
+//@ spec ppsk(ms: msgServer): iface = unbox(ms.provider, keeper.Keeper).skey
+//@ spec pwired(ms: msgServer): bool = typeis(ms.provider, keeper.Keeper) && typeis(ms.market, mkeeper.Keeper) && pmsk(ms) != ppsk(ms)
+
+// the j-th lease of the market store (key order)
+//@ spec leaseAt(has: map[str]bool, val: map[str]str, j: int): mtypes.Lease = decode(mtypes.Lease, val[enumKey(has, "\x03\x00", j)])
+// lease l of this provider is active and its order's required attributes are covered by attrs
+//@ spec leaseCovered(has: map[str]bool, val: map[str]str, l: mtypes.Lease, attrs: slice): bool =
+//@     has[orderKeyOf(asOrder(l.LeaseID))] && subsetAttrs(ordOf(val, asOrder(l.LeaseID)).Spec.Requirements.Attributes, attrs)
+
+// stateless validation of the update (only the owner clause is needed here)
+//@ extern types.(MsgUpdateProvider).ValidateBasic(msg)
+//@   pure
+//@   ensures result == nil ==> validBech32(msg.Owner)
+//@ extern keeper.(IKeeper).Update(recv, ctx, provider)
+//@   modifies ghost KVhas, ghost KVval, ghost G, ghost EvN, ghost EvLog
+
+// C08: a provider cannot change its own attributes so that they no longer cover the requirements of its active
+// leases.  "Its" leases are those whose provider is this account (the lease records carry the canonical text
+// of the provider's address), however the update spells the owner.
+//@ func (msgServer).UpdateProvider$1
+//@   requires pwired(ms)
+//@   modifies found, err
+//@   ensures [skip] !(lease.LeaseID.Provider == bech32(owner) && lease.State == mtypes.LeaseActive) ==> !result && err == old(err)
+//@   ensures [missing] lease.LeaseID.Provider == bech32(owner) && lease.State == mtypes.LeaseActive && !KVhas[pmsk(ms)][orderKeyOf(asOrder(lease.LeaseID))] ==> result && err != nil
+//@   ensures [covered] lease.LeaseID.Provider == bech32(owner) && lease.State == mtypes.LeaseActive && leaseCovered(KVhas[pmsk(ms)], KVval[pmsk(ms)], lease, msg.Attributes) ==> !result && err == old(err)
+//@   ensures [refused] lease.LeaseID.Provider == bech32(owner) && lease.State == mtypes.LeaseActive && KVhas[pmsk(ms)][orderKeyOf(asOrder(lease.LeaseID))]
+//@        && !leaseCovered(KVhas[pmsk(ms)], KVval[pmsk(ms)], lease, msg.Attributes) ==> result && err != nil
+//@ func (msgServer).UpdateProvider
+//@   requires msg != nil && pwired(ms)
+//@   modifies ghost KVhas, ghost KVval, ghost G, ghost EvN, ghost EvLog, ghost It_all
+//@   call 1 invariant KVhas == atloop(KVhas) && KVval == atloop(KVval) && EvN == atloop(EvN) && EvLog == atloop(EvLog)
+//@   call 1 invariant (cbstop <==> err != nil)
+//@   call 1 invariant forall j: int :: 0 <= j && j < cbidx && !(cbstop && j == cbidx - 1) ==>
+//@        (leaseAt(KVhas[pmsk(ms)], KVval[pmsk(ms)], j).LeaseID.Provider == bech32(unbech32(msg.Owner)) && leaseAt(KVhas[pmsk(ms)], KVval[pmsk(ms)], j).State == mtypes.LeaseActive ==>
+//@            leaseCovered(KVhas[pmsk(ms)], KVval[pmsk(ms)], leaseAt(KVhas[pmsk(ms)], KVval[pmsk(ms)], j), msg.Attributes))
+//@   ensures [guard] result1 == nil ==> (forall j: int :: 0 <= j && j < enumLen(old(KVhas)[pmsk(ms)], "\x03\x00") ==>
+//@        (leaseAt(old(KVhas)[pmsk(ms)], old(KVval)[pmsk(ms)], j).LeaseID.Provider == bech32(unbech32(msg.Owner)) && leaseAt(old(KVhas)[pmsk(ms)], old(KVval)[pmsk(ms)], j).State == mtypes.LeaseActive ==>
+//@            leaseCovered(old(KVhas)[pmsk(ms)], old(KVval)[pmsk(ms)], leaseAt(old(KVhas)[pmsk(ms)], old(KVval)[pmsk(ms)], j), old(msg.Attributes))))
+
+//@ property C08 := (msgServer).UpdateProvider#*, (msgServer).UpdateProvider$1#*
